@@ -8,6 +8,7 @@ import (
 	"flag"
 	"fmt"
 	"os"
+	"path/filepath"
 	"runtime/pprof"
 	"strconv"
 	"strings"
@@ -755,6 +756,9 @@ func main() {
 		defer pprof.StopCPUProfile()
 	}
 	r := hx.NewRng(run.Seed)
+	if f := flag.Lookup("stats"); f != nil && f.Value.String() != "" {
+		rsaCachePath = filepath.Join(filepath.Dir(f.Value.String()), "registry_rsa_keys.cache")
+	}
 	setupMaterial(r)
 	if lines := run.ReplayLines(); lines != nil {
 		replay(run, lines)
